@@ -7,8 +7,11 @@ def props(P):
         "C03": sim("TestC03", (1200, 300), (16, 2500, 1500)),
         "C04": sim("TestC04", (1200, 300), (16, 2500, 1500)),
         "C05": sim("TestC05", (1200, 300), (16, 2500, 1500), regress="TestRegressC05"),
+        "C06": sim("TestC06", (60, 300), (16, 60, 2400), level="fault_enumeration"),
         "C07": sim("TestC07", (1200, 300), (16, 2500, 1500)),
         "C08": sim("TestC08", (1200, 300), (16, 2500, 1500)),
         "C09": sim("TestC09", (1200, 300), (16, 3000, 1500)),
         "C10": sim("TestC10", (1200, 300), (16, 2500, 1500)),
+        "C11": sim("TestC11", (300, 300), (16, 1200, 1800), regress="TestRegressC11"),
+        "C14": sim("TestC14", (600, 300), (16, 2500, 1800)),
     }
